@@ -720,6 +720,20 @@ func c16Envelope(c *Check, id string) {
 			for _, nmsg := range CallsTo(wrapFn, nNewMessage) {
 				c.Report(AllOrigins(nmsg.Common().Args[1], func(v ssa.Value) bool { return IsResultOf(v, jm, 0) }), id, "WRAP-PAYLOAD", wrapFn, nmsg.Pos(), "wrap", "the encoded envelope is the wrapping message's payload")
 			}
+			// what wrap hands back on success is that new message, for every input
+			for i, r := range Returns(wrapFn) {
+				if len(r.Results) == 2 && RetNil(r, 1) {
+					okNew := AllOrigins(r.Results[0], func(v ssa.Value) bool {
+						for _, nmsg := range CallsTo(wrapFn, nNewMessage) {
+							if v == CallValue(nmsg) {
+								return true
+							}
+						}
+						return false
+					})
+					c.Report(okNew, id, "WRAP-RESULT", wrapFn, r.Pos(), fmt.Sprintf("wrap return#%d", i), "a successful wrap returns the newly built envelope message (never the input message: a payload that happens to look like an envelope must be wrapped like any other)")
+				}
+			}
 		}
 	}
 	// unwrap: decodes msg.Payload into the envelope; rebuilds the message field by field
@@ -913,6 +927,13 @@ func c16Codecs(c *Check, id string) {
 				return false
 			})
 			c.Report(pf != nil && pf.Name() == "Payload" && okD, id, "CODEC/decode", unm, d.Pos(), name, "Unmarshal applies the matching decoder to the payload, into the given value")
+			// success means decoded: no nil return that did not go through the decoder
+			re := ReachEntry(unm, NewCut().AddInstrs(d))
+			for i, r := range Returns(unm) {
+				if RetNil(r, len(r.Results)-1) {
+					c.Report(!re[r], id, "CODEC/decode-always", unm, r.Pos(), fmt.Sprintf("%s Unmarshal return#%d", name, i), "Unmarshal reports success only after the decoder ran (whatever the payload looks like — an empty payload is for the decoder to judge)")
+				}
+			}
 		}
 	}
 	c.Floor(id, "CQRS marshalers", n, 3)
